@@ -81,11 +81,11 @@ def cargo_kani(crate_rel, filters, features, target, rep, timeout_each=600, jobs
     return rc, out + '\n' + err, secs, to
 
 
-def run_harnesses(rep, crate_rel, harnesses, features, target, timeout_each=600, extra=(), harness_file=None, playback_features=None):
+def run_harnesses(rep, crate_rel, harnesses, features, target, timeout_each=600, extra=(), harness_file=None, playback_features=None, jobs=None):
     """Runs the given Harness list in one cargo-kani invocation; adds one Obligation per harness."""
     names = [h.name for h in harnesses] + ['verif_canary_must_fail']
     t0 = time.time()
-    rc, out, secs, to = cargo_kani(crate_rel, names, features, target, rep, timeout_each, extra=extra)
+    rc, out, secs, to = cargo_kani(crate_rel, names, features, target, rep, timeout_each, extra=extra, jobs=jobs)
     parsed = _parse(out)
     by_short = {}
     for full, r in parsed.items():
@@ -126,7 +126,10 @@ def run_harnesses(rep, crate_rel, harnesses, features, target, timeout_each=600,
                 failed_desc = re.findall(r'Failed Checks: (.*)', txt)
                 unsupported = [d for d in failed_desc if 'not currently supported' in d or 'unwinding assertion' in d]
                 real = [d for d in failed_desc if d not in unsupported]
-                if failed_desc and not real:
+                if not failed_desc:
+                    ob.status = 'undecided'
+                    ob.detail = 'harness %s: CBMC ended without reporting a failed check (crash / out of memory / killed): %s' % (full, txt[-600:])
+                elif failed_desc and not real:
                     ob.status = 'undecided'
                     ob.detail = 'only unwinding/unsupported-construct checks failed: ' + '; '.join(unsupported)[:800]
                 else:
